@@ -15,12 +15,7 @@ TRUSTED = [
     "models: lean/SRVerif/Model/{Rec,LabelDP,Solvers}.lean; specification: lean/SRVerif/Spec/Opt.lean",
 ]
 ASSUMPTIONS = ["coherent cost vectors; leaf syntenies non-empty with distinct families"]
-OPEN = [
-    "adequacy of the unordered oracle: Spec.optimum ranges over labellings between required and allowed content "
-    "(Spec.labelSpace); that every Spec.validSol .unordered solution is (up to order/duplicates of its label lists) "
-    "such a labelling is not yet a theorem (the ordered and plain analogues are: C02Spec, OptAdequacyPlain); "
-    "proved: C03_full_eq (returned cost = Spec.optimum for binary S), C03_exchange (canonical labellings lose nothing)",
-]
+OPEN = []  # C03_guarded_statement, oracle adequacy (C03Spec), exchange argument (C03Full), code-structured model (C03Code): proved
 
 CORPUS = [
     # fixed: F-USPFS-ALIAS
